@@ -2,17 +2,22 @@ import Driver.Common
 import Driver.C18
 import Driver.Life
 import Driver.C09
+import Driver.C09Pure
+import Driver.CallRace
 import Driver.Boxing
 import Driver.C08
 import Driver.SpawnClean
 import Driver.Early
 import Driver.EarlyStep
 import Driver.Registry
+import Driver.Reg2
+import Driver.PidRegistry
 import Driver.Pg
 import Driver.C16
 import Driver.C20
 import Driver.C12
 import Driver.C05
+import Driver.TreeMx
 import Driver.Admission
 import Driver.ExitRace
 import Driver.C19
@@ -33,6 +38,8 @@ def main (args : List String) : IO UInt32 := do
       | "life-residue" => Driver.LifeDrv.run .residue ops impl
       | "life-c02" => Driver.LifeDrv.run .c02 ops impl
       | "c09" => Driver.C09.run ops impl
+      | "c09pure" => Driver.C09Pure.run ops impl
+      | "c09race" => Driver.CallRaceD.run ops impl
       | "c02-rpc" => Driver.C09.runC02 ops impl
       | "c02-box" => Driver.BoxingD.run ops impl
       | "c08" => Driver.C08.run ops impl
@@ -40,12 +47,16 @@ def main (args : List String) : IO UInt32 := do
       | "c07-early" => Driver.EarlyD.run ops impl
       | "c07-earlystep" => Driver.EarlyStepD.run ops impl
       | "registry" => Driver.Registry.run ops impl
+      | "reg2" => Driver.Reg2D.run ops impl
+      | "pidreg" => Driver.PidRegistry.run ops impl
       | "pg" => Driver.Pg.run ops impl
       | "c16" => Driver.C16.run ops impl
       | "c20" => Driver.C20.run ops impl
       | "c12" => Driver.C12.run ops impl
+      | "c12-free" => Driver.C12.runFree ops impl
       | "c05" => Driver.C05.run ops impl
       | "c07-tree" => Driver.C05.runC07 ops impl
+      | "c05-mx" => Driver.TreeMx.run ops impl
       | "admission" => Driver.Admission.run ops impl
       | "exitrace" => Driver.ExitRace.run ops impl
       | "c19" => Driver.C19.run ops impl
